@@ -301,7 +301,7 @@ func init() {
 			runRandomWorkload(rcx, workloadOpts{})
 		},
 		Directed: func(string) int { return len(pairCatalogue) },
-		Quick:    24000, Thorough: 400000, QuickSecs: 60, ThorSecs: 1500,
+		Quick:    24000, Thorough: 1600000, QuickSecs: 60, ThorSecs: 1500,
 		Rule: "directed: every ordered pair (A,B) of 24 backend-reaching request kinds x 8 path relations x same/other connection, A parked inside its backend call by a hold, B issued, run to quiescence, A released (all in every tier); random: concurrent pipelined peers on 1-4 connections over a shared tree with tape-driven scheduling. Oracle: conflict matrix from the comments on p9.File evaluated by the backend's overlap monitor at every call entry; Open count per handle. A run is non-trivial if A actually parked inside the backend (directed) or >=2 backend calls were in flight together (random); distinct = distinct (scenario label, schedule fingerprint).",
 		Assume: []string{"task switches happen at synchronisation operations, atomics, transport and backend calls only", "simfs path identity = slash path of the handle; handles on removed entries count as distinct paths"},
 		Real:   []string{"p9.Server", "p9 path tree / fid table / handlers", "p9 wire codec"},
@@ -322,7 +322,7 @@ func init() {
 			runRandomWorkload(rcx, workloadOpts{Flush: true, BadFrames: rcx.Index%2 == 1})
 		},
 		Directed: func(string) int { return len(pairCatalogue) },
-		Quick:    24000, Thorough: 400000, QuickSecs: 60, ThorSecs: 1500,
+		Quick:    24000, Thorough: 1600000, QuickSecs: 60, ThorSecs: 1500,
 		Rule: "directed: same pair catalogue as C07 (A parked in backend, B issued): B must be answered while A is parked unless the File contract orders it after A; random: pipelined peers, adversarial tags, small reply pipe with slow reader, in half of the runs interspersed with well-delimited undecodable frames (unknown type, short body), whose Rlerror is a reply frame like any other. Wire monitor on the reply stream: every frame contiguous (single writer task), exactly one reply per decodable request with free tag, same tag, matching R-type or Rlerror, no unsolicited reply. Non-trivial/distinct as C07.",
 		Assume: []string{"undecodable frames and requests re-using an in-flight tag are exempt, as the statement says", "progress of B is asserted only while no write/global request is pending (RWMutex writer preference legitimately delays readers)"},
 		Real:   []string{"p9.Server", "p9 path tree / fid table / handlers", "p9 wire codec"},
